@@ -41,7 +41,14 @@ TECHNIQUE = (
     "file is probed with a fresh open()+flock() right then, while the helper (which shares the command's open files) lives; and runs that get their "
     "real SIGINT only after run() is over, while entry_point() closes the database: the command had queued a burst of scan results "
     "(DBHandler.insert_scan_result), the parent waits for the end of run() and for the command's call of DBHandler.disconnect() (noted by a wrapper around "
-    "that method), counts the burst rows already written with a read-only reader and sends the signal"
+    "that method), counts the burst rows already written with a read-only reader and sends the signal; runs inside a run: gallia's shipped Rerunner "
+    "(`script rerun --file META.json`; subclassed only to log one record in setup() and one in teardown()) re-creates the harness command from a META.json and awaits "
+    "its entry_point() inside its own main(), so two runs of one process - each with its own artifacts dir/log file, database handler (same or another file) and lock "
+    "file - are alive at once; the inner run is observed by a wrapper around its real entry_point() (return value, log file copy, handlers attached since it began, "
+    "lock probe), the outer run as any top-level run, and each is judged on its own artefacts; every run with a database starts on a database path in one of three "
+    "states (absent / existing empty file as from mktemp or touch / gallia database an earlier completed run of gallia's own DBHandler has written to); hooks that do not "
+    "fail but take long (sleep, then a marker file, exit 0): with the clock the stdlib subprocess module measures timeouts with running 40000 times faster in the child "
+    "(a 0.3 s hook has taken 12000 s by any limit given to subprocess.run; without a limit that clock is never read) and, in one run (thorough: two), really sleeping 20-35 s"
 )
 LEVEL_TEXT = (
     "Fault enumeration: command kind x exit kind x lifecycle point is enumerated completely in both tiers (3 x (1 + 9 x 5) = "
@@ -57,7 +64,11 @@ LEVEL_TEXT = (
     "target form x 8 resource settings) of the shipped DoIP discoverer through the real CLI (target given as host:port, with src_addr, with src_addr and "
     "activation_type, with a foreign scheme), plus 6 runs (command kind x fork flavour; thorough: 144 = kind x flavour x fork point x 8 endings) in which "
     "the command forks a helper process that outlives entry_point(), lock file on, plus 6 runs (every kind twice; thorough: 48 = kind x 8 endings x 2) "
-    "that end in main or teardown with 600-1200 scan results queued and get a real SIGINT while entry_point() closes the database. Thorough: every combination "
+    "that end in main or teardown with 600-1200 scan results queued and get a real SIGINT while entry_point() closes the database, plus 9 nested runs (9 endings of all "
+    "classes incl. a real SIGINT, command kind rotating, the 8 resource settings of the outer Rerunner run rotating; thorough: 138 = kind x exit kind x lifecycle point) in which "
+    "gallia's Rerunner runs the harness command inside its own run, plus 9 runs (kind x slow hook in {pre, post, both}; thorough: 72 = x 8 endings) with long-running hooks under the "
+    "scaled subprocess clock and 1 run (thorough: 2) whose hook really sleeps 20 s (35 s). In every family each run with a database gets one of three states of the database path "
+    "before the run (absent, empty file, used by an earlier run), the three states in shuffled turns. Thorough: every combination "
     "x all 8 resource settings x 5 hook pairs (a rotating diagonal of the non-failing 3x3 hook square, one failing pre-hook, "
     "one failing post-hook; 5520 runs; VERIF_C15_FULL=1 runs all 25 hook pairs). One fault per run; held means held for the "
     "runs executed. A child that exceeds the watchdog is re-run; it is a finding only if it hangs again and the thread stacks "
@@ -66,7 +77,9 @@ LEVEL_TEXT = (
 LEVEL_NOTE = (
     "Trusted: the exit-code table and artefact oracle in vf/checks/c15.py, sqlite3, zstandard, the kernel's flock. The child "
     "mirrors gallia's CLI main (setup_logging + asyncio.run(entry_point())) but is not the gallia CLI; dumpcap is off; "
-    "database-open failures and double faults are not injected."
+    "database-open failures and double faults are not injected (a database file that exists before the run, empty or used, opens fine). Nested runs use gallia's Rerunner with "
+    "two logging lines added in a subclass; two entry_point()s gathered side by side in one loop are not exercised. The scaled clock only reaches limits enforced through the "
+    "subprocess module's own timeout handling."
 )
 RULE = (
     "a case is (command kind in {script, scanner, uds}) x (exit kind in {return, SystemExit(0), SystemExit(1), SystemExit(3), "
@@ -88,7 +101,10 @@ RULE = (
     "the command forks a helper process that stays alive until the harness stops it after entry_point()) x (ending at or after that point, real SIGINT excepted), "
     "lock file on; an eighth family is (kind) x (8 endings in main / teardown) x (burst of 600/900/1200 queued scan results at the last lifecycle point before "
     "the ending) x (real SIGINT sent 0/5/20 ms after the command called DBHandler.disconnect(), i.e. while entry_point() writes out the queue and closes the database), "
-    "database on; "
+    "database on; a ninth family is (gallia's Rerunner as the outer run, artifacts dir on/off x database in {none, the inner run's file, a file of its own} x lock file on/off, 8 settings) x "
+    "(inner run: kind x exit kind x lifecycle point, own resources, non-failing hooks), the Rerunner awaiting the inner entry_point() inside its main(); a tenth family is (kind) x "
+    "(pre-hook, post-hook in {slow, none}, at least one slow) x (8 endings, no real SIGINT) x (flavour in {scaled subprocess clock, real time}); a dimension of every run with a database is "
+    "the state of the database path before the run in {absent, empty file, database used by an earlier completed run}; "
     "non-trivial = anything but a fault-free run without hooks and "
     "resources; distinct = distinct case tuples"
 )
@@ -126,6 +142,20 @@ ASSUMPTIONS = [
     "if at least 50 rows of the burst were still unwritten at that moment. What becomes of the queued scan results is not part of this property. After its "
     "observations the child stops a database connection the command left open (its worker thread is not a daemon thread and can keep a process alive whose "
     "command object is still referenced, e.g. from a traceback); that the connection was left open is counted, not judged",
+    "several runs may be alive in one process at the same time (gallia's own `script rerun` awaits the re-created command's entry_point() inside its run): each run's exit code, META.json, "
+    "log, run_meta row and lock file are its own and are judged separately. The Rerunner ends with sys.exit(n), n being what the inner entry_point() returned, so its documented exit code is n. "
+    "'Fully readable' for the outer run: its log handler is attached from before the inner command exists until after it has ended, so the two records the harness logs from the Rerunner's "
+    "setup()/teardown() and every record of the inner run belong into the outer log, in order; the inner log is only asked for the inner run's records (records of the outer run that also show "
+    "up there, or records that are there twice, are not judged). Outer and inner run use different lock files (one process cannot hold the same flock twice) and different artifacts bases; "
+    "the outer run has no hooks",
+    "the path given as --db may already exist: as an empty file (`--db \"$(mktemp)\"`, touch - a zero-byte file is an empty sqlite database) or as a gallia database earlier runs have written to; "
+    "neither is a database-open failure, the run has to leave the same artefacts as on a fresh path. The 'earlier run' is made in the child before the command is built with gallia's own "
+    "DBHandler (connect, insert_run_meta, complete_run_meta, disconnect in an asyncio.run() of its own); a run counts for that state only if this succeeded and its row is in the file",
+    "no run time limit for hooks is documented: a hook that takes long and exits 0 is not a failing hook; it is run to its end (the marker it writes after its sleep exists) and the run "
+    "is what it would have been with a quick hook. Scaling subprocess._time (the monotonic clock subprocess.run/communicate/wait compare a given timeout with) changes nothing for code that "
+    "gives subprocess no timeout; a limit enforced by other means (asyncio, signals, threads) is only met by the hook that really sleeps 20 s (35 s)",
+    "after an exception other than a Ctrl-C's KeyboardInterrupt has left entry_point() in a run on a database path that existed before (or in a nested run), the child stops a database "
+    "connection that exception left open, so that the child can end; the exception is the finding, the hanging process would be its consequence",
     "the database may be shared with other writers: a write lock held by somebody else for up to 6 s (the handler's busy timeout is 10 s) "
     "must not cost the run its end time / exit code; a contended run is judged as such only if the measured lock time was 1.5..6 s, "
     "and not judged at all if the harness held the lock longer",
@@ -223,6 +253,30 @@ LATESIG_RUN_END_TIMEOUT = 25.0
 LATESIG_ENTRY_TIMEOUT = 5.0
 LATESIG_COND = "late-real-sigint"
 BURST_TAG = "c15_burst"
+# ---- "a run inside a run" family (spec["rerun"]): the shipped `gallia script rerun --file META.json` (Rerunner) re-creates a command from
+# a META.json and awaits its entry_point() inside its own main(), i.e. two runs of one process are alive at the same time, each with its
+# own artifacts dir / log file / database handler / lock file. The harness command (any kind, any ending) is the inner run; the outer run is
+# the Rerunner with its own resources. Both runs are judged separately by the same artefact oracle. The outer class is the shipped Rerunner
+# with setup()/teardown() that log one record each (before the inner command exists / after it has ended), nothing else is changed.
+OUTER_CLASS = "C15Rerunner"
+OUTER_COMMAND = f"vf.checks.c15.{OUTER_CLASS}"
+OUTER_COND = "outer-of-nested-run"
+RERUN_OUTER_RES = [  # (artifacts dir, database in {None, "same" file as the inner run, "own" file}, lock file) of the outer run
+    (True, "same", True), (True, None, False), (True, "own", False), (False, "same", True), (True, "same", False), (True, None, True), (False, "own", False), (False, None, False),
+]
+# ---- "database file that is already there" dimension (spec["dbstate"], every run with a database): the path given as --db does not exist
+# yet ("absent"), exists as an empty file (`--db "$(mktemp)"`, touch; a zero-byte file is an empty sqlite database: "empty-file"), or is a
+# gallia database an earlier, completed run has written to ("initialised": done by the child with gallia's own DBHandler before the command
+# is built; the row of that earlier run carries OTHER_WRITER as its script).
+DBSTATES = ["absent", "empty-file", "initialised"]
+# ---- "hook that takes its time" family (spec["slowhook"]): a pre-/post-hook that does not fail but runs long (power-cycle the ECU and wait
+# for it to boot). No run time limit for hooks is documented, and a hook that is cut short or whose slowness ends the run has altered the run.
+# Two flavours: "scaled" - the hook sleeps SLOW_SCALED_SLEEP s while the clock the stdlib subprocess module measures its timeouts with
+# (subprocess._time) runs SLOW_CLOCK_SCALE times faster in the child, so that by any limit the command could hand to subprocess.run() the hook
+# has taken hours (without a limit that clock is never read); "realtime" - the hook really sleeps SLOW_REAL_SLEEP s under the unchanged clock.
+SLOW_SCALED_SLEEP = 0.3
+SLOW_CLOCK_SCALE = 40000.0
+SLOW_REAL_SLEEP = {"quick": [20.0], "thorough": [20.0, 35.0]}
 TEXT_SURROGATE = [c for c, t in TEXT_CLASSES.items() if any(0xD800 <= ord(ch) <= 0xDFFF for ch in t)]
 LOGGER_NAME = "gallia.verif.c15"
 # set by the fault injector (main thread), read by the virtual ECU (its own thread): "answer" | "silent" | "reset"
@@ -241,6 +295,7 @@ case "$1" in
   noisy) yes "c15 noisy hook stdout line 0123456789 0123456789" | head -n 2500
          yes "c15 noisy hook stderr line 0123456789 0123456789" | head -n 2500 >&2
          exit 0 ;;
+  slow) sleep "${C15_SLOW:-0.3}"; echo done > "$C15_OUT/hook-$GALLIA_HOOK.done"; exit 0 ;;
 esac
 exit 0
 """
@@ -549,6 +604,71 @@ def gen_latesig(tier: str, seed: int, first_id: int) -> list[dict[str, Any]]:
     return rows
 
 
+RERUN_ENDS = [("return", "none"), ("exit3", "main"), ("connerr", "setup_post"), ("runtime", "teardown_pre"), ("kbdint", "main"), ("sigint", "main"),
+              ("udserr", "teardown_post"), ("exit1", "setup_pre"), ("exitstr", "main")]
+
+
+def gen_rerun(tier: str, seed: int, first_id: int) -> list[dict[str, Any]]:
+    """Runs inside a run: the shipped Rerunner (`gallia script rerun --file META.json`) re-creates the harness command and awaits its
+    entry_point() inside its own run. Quick: 9 runs (9 endings of all classes, command kind rotating, the 8 resource settings of the outer
+    run rotating); thorough: command kind x every (exit kind, lifecycle point). The inner run has an artifacts dir in 4 of 5 runs; its hooks never fail."""
+    import random
+
+    rng = random.Random(f"C15/rerun/{tier}/{seed}")
+    if tier == "quick":
+        triples = [(KINDS[(i + seed) % 3], e, p) for i, (e, p) in enumerate(RERUN_ENDS)]
+    else:
+        triples = base_triples()
+    rows = []
+    for i, (k, e, p) in enumerate(triples):
+        oart, odb, olock = RERUN_OUTER_RES[(i + seed) % len(RERUN_OUTER_RES)]
+        rows.append({"kind": k, "exit": e, "point": p, "pre": rng.choice(["none", "ok"]), "post": rng.choice(["none", "ok", "noisy"]),
+                     "art": i % 5 != 4, "db": odb == "same" or rng.random() < 0.5, "lock": rng.random() < 0.5,
+                     "rerun": {"art": oart, "db": odb, "lock": olock}, "id": first_id + i})
+    return rows
+
+
+def gen_slowhook(tier: str, seed: int, first_id: int) -> list[dict[str, Any]]:
+    """Runs with a pre- and/or post-hook that does not fail but takes long. Quick: command kind x {pre, post, both} under the scaled subprocess
+    clock (9 runs, endings rotating) plus one run whose hook really sleeps 20 s (pre- or post-hook by the seed); thorough: kind x {pre, post, both}
+    x 8 endings scaled, plus a real 20 s pre-hook and a real 35 s post-hook. No real SIGINT (whether the post-hook runs then is not decided)."""
+    import random
+
+    rng = random.Random(f"C15/slowhook/{tier}/{seed}")
+    ends = [x for x in RERUN_ENDS if x[0] != "sigint"]
+    where = [("slow", "none"), ("none", "slow"), ("slow", "slow")]
+    combos: list[tuple[str, tuple[str, str], tuple[str, str], dict[str, Any]]] = []
+    i = seed
+    for k in KINDS:
+        for w in where:
+            for e in ([ends[i % len(ends)]] if tier == "quick" else ends):
+                combos.append((k, w, e, {"flavour": "scaled", "sleep": SLOW_SCALED_SLEEP, "scale": SLOW_CLOCK_SCALE}))
+                i += 1
+    for j, secs in enumerate(SLOW_REAL_SLEEP[tier]):
+        w = where[(j + seed) % 2]
+        combos.append((KINDS[(j + seed) % 3], w, ends[(j * 3 + seed + 1) % len(ends)], {"flavour": "realtime", "sleep": secs, "scale": 1.0}))
+    rows = []
+    for i, (k, (pre, post), (e, p), sh) in enumerate(combos):
+        rows.append({"kind": k, "exit": e, "point": p, "pre": pre, "post": post, "art": rng.random() < 0.7, "db": rng.random() < 0.5, "lock": rng.random() < 0.5,
+                     "slowhook": sh, "id": first_id + i})
+    return rows
+
+
+def assign_dbstate(tier: str, seed: int, cases: list[dict[str, Any]]) -> None:
+    """every run with a database gets the state its database path is in before the run: each block of three consecutive such runs
+    (by id) gets the three states in a freshly shuffled order"""
+    import random
+
+    rng = random.Random(f"C15/dbstate/{tier}/{seed}")
+    block: list[str] = []
+    for c in sorted(cases, key=lambda c: c["id"]):
+        if c["db"]:
+            if not block:
+                block = DBSTATES[:]
+                rng.shuffle(block)
+            c["dbstate"] = block.pop()
+
+
 def shards(tier: str, seed: int) -> list[dict[str, Any]]:
     n = 16
     cases = gen_cases(tier, seed)
@@ -580,8 +700,21 @@ def shards(tier: str, seed: int) -> list[dict[str, Any]]:
     fkh = gen_forkhelper(tier, seed, nxt)
     for j, c in enumerate(fkh):
         out[(j * 5 + seed + 6) % n]["cases"].append(c)
-    for j, c in enumerate(gen_latesig(tier, seed, nxt + len(fkh))):
+    lsg = gen_latesig(tier, seed, nxt + len(fkh))
+    for j, c in enumerate(lsg):
         out[(j * 3 + seed + 8) % n]["cases"].insert(0, c)
+    nxt += len(fkh) + len(lsg)
+    # a run inside a run (the shipped `script rerun`)
+    rrn = gen_rerun(tier, seed, nxt)
+    for j, c in enumerate(rrn):
+        out[(j * 5 + seed + 9) % n]["cases"].append(c)
+    # hooks that take long; the ones that really sleep for tens of seconds start first
+    for j, c in enumerate(gen_slowhook(tier, seed, nxt + len(rrn))):
+        if c["slowhook"]["flavour"] == "realtime":
+            out[(j * 7 + seed + 5) % n]["cases"].insert(0, c)
+        else:
+            out[(j * 3 + seed + 11) % n]["cases"].append(c)
+    assign_dbstate(tier, seed, [c for s in out for c in s["cases"]])
     return out
 
 
@@ -633,6 +766,18 @@ def required_reach(tier: str) -> dict[str, int]:
     k = 3 if tier == "quick" else 30
     need.update({"latesig.run-entry-completion-window": 2, "latesig.exercised": k, "latesig.run_meta_checked": k, "latesig.meta_checked": 2 if tier == "quick" else 20,
                  f"log.checked_at_entry_point_end.{LATESIG_COND}": 2 if tier == "quick" else 20})
+    # a run inside a run (gallia's Rerunner awaiting the re-created command's entry_point()): the inner command really ran inside the outer
+    # run, both had their log files open at the same time, and the outer run's own META.json / log / run_meta row / lock file were judged
+    q = tier == "quick"
+    need.update({"rerun.exercised": 6 if q else 100, "rerun.both_logs_open": 3 if q else 40, "rerun.outer.meta_checked": 3 if q else 50,
+                 "rerun.outer.log_sequence_checked": 3 if q else 50, "rerun.outer.log_sequence_checked_at_entry_point_end": 3 if q else 50,
+                 "rerun.outer.run_meta_checked": 3 if q else 50, "rerun.shared_database": 2 if q else 25, "rerun.outer.lock_probed": 2 if q else 25})
+    need.update({f"rerun.kind.{kd}": 1 if q else 25 for kd in KINDS})
+    # the database path was absent / an empty file / a database an earlier run had used, and the run_meta row of such a run was read
+    need.update({f"dbstate.{st}.run_meta_checked": 10 if q else 300 for st in DBSTATES})
+    # hooks that take long were run to their end (marker written after the sleep), under the scaled subprocess clock and in real time
+    need.update({"slowhook.completed.pre": 4 if q else 40, "slowhook.completed.post": 4 if q else 40, "slowhook.clock_scaled": 8 if q else 80,
+                 "slowhook.realtime.completed": 1 if q else 2})
     return need
 
 
@@ -676,7 +821,7 @@ _DEFINED = False
 def define_commands() -> None:
     """Create the harness command classes as attributes of *this* module, so that run_meta.command
     ('vf.checks.c15.C15Script', ...) can be resolved the way gallia's Rerunner does it."""
-    global _DEFINED, C15Script, C15Scanner, C15UDSScanner, C15ScriptConfig, C15ScannerConfig, C15UDSScannerConfig, C15ECU
+    global _DEFINED, C15Script, C15Scanner, C15UDSScanner, C15ScriptConfig, C15ScannerConfig, C15UDSScannerConfig, C15ECU, C15Rerunner
     if _DEFINED:
         return
     import gallia.command  # noqa: F401  (before gallia.plugins.plugin: circular import otherwise)
@@ -731,6 +876,40 @@ def define_commands() -> None:
                 # setup/main/teardown are over, however they ended: what follows is entry_point()'s own bookkeeping
                 self.injector.run_ended()
 
+        async def entry_point(self) -> int:
+            inj = self.injector
+            if inj is None or not inj.spec.get("rerun"):
+                return await super().entry_point()  # type: ignore[misc,no-any-return]
+            # the command was re-created by the Rerunner and runs inside the Rerunner's run: what child_main() observes around
+            # asyncio.run(entry_point()) for a top-level run is observed here, around the real entry_point() of the inner run
+            inj.inner_begins(self)
+            try:
+                rc = await super().entry_point()  # type: ignore[misc]
+                (inj.out / "returned").write_text(json.dumps(rc))
+                return rc  # type: ignore[no-any-return]
+            finally:
+                inj.inner_ended(self)
+
+    from gallia.commands.script.rerun import Rerunner
+
+    class C15Rerunner(Rerunner):  # type: ignore[no-redef]
+        """The shipped Rerunner; setup() and teardown() (empty in AsyncScript) log one record each, so that the outer run has records of
+        its own from before the inner command exists and from after it has ended."""
+
+        SHORT_HELP = "C15 harness: gallia's Rerunner"
+        injector: Any = None
+
+        async def setup(self) -> None:
+            await super().setup()
+            self.injector.outer_say("outer run: setup, the command to re-run has not been created yet")
+
+        async def teardown(self) -> None:
+            self.injector.outer_say("outer run: teardown, the re-created command has ended")
+            await super().teardown()
+
+    C15Rerunner.__module__ = "vf.checks.c15"
+    C15Rerunner.__qualname__ = "C15Rerunner"
+
     class C15Script(_Mixin, AsyncScript):  # type: ignore[no-redef]
         CONFIG_TYPE = C15ScriptConfig
         SHORT_HELP = "C15 harness script"
@@ -755,6 +934,24 @@ def build_config(spec: dict[str, Any], rundir: Path) -> Any:
     return cls.CONFIG_TYPE(**config_kwargs(spec, rundir))
 
 
+def outer_paths(rundir: Path) -> dict[str, Path]:
+    """where the outer run (the Rerunner) of a nested run keeps its things; the inner run uses run_paths() like every other run"""
+    return {"art": rundir / "outer-art", "db": rundir / "outer-db" / "gallia.sqlite", "lock": rundir / "outer.lock", "meta": rundir / "rerun-META.json"}
+
+
+def build_outer_config(spec: dict[str, Any], rundir: Path) -> Any:
+    define_commands()
+    r, o = spec["rerun"], outer_paths(rundir)
+    kw: dict[str, Any] = {"volatile_info": False, "file": o["meta"]}
+    if r["art"]:
+        kw["artifacts_base"] = o["art"]
+    if r["db"] is not None:
+        kw["db"] = run_paths(rundir)["db"] if r["db"] == "same" else o["db"]
+    if r["lock"]:
+        kw["lock_file"] = o["lock"]
+    return C15Rerunner.CONFIG_TYPE(**kw)
+
+
 def marker(spec: dict[str, Any]) -> str:
     return f"C15-MARKER id={spec.get('id', 0)} {spec['kind']}/{spec['exit']}/{spec['point']} last record before the fault"
 
@@ -772,6 +969,8 @@ class Injector:
         self.seq = 0
         self.helper: tuple[str, Any] | None = None
         self.run_over = False
+        self.inner_cmd: Any = None  # nested runs: the command the Rerunner re-created
+        self.qh_base = 0
 
     def event(self, name: str) -> None:
         os.write(self.fd, (name + "\n").encode())
@@ -780,6 +979,30 @@ class Injector:
         self.run_over = True
         self.event("run_ended")
         (self.out / "run-ended").write_text(str(os.getpid()))
+
+    @staticmethod
+    def queue_handlers() -> int:
+        import logging
+
+        # setup_logging(logger_name="") puts the console handler on the root logger; on "gallia" only add_zst_log_handler() attaches one
+        return sum(1 for h in logging.getLogger("gallia").handlers if type(h).__name__ == "QueueHandler")
+
+    def outer_say(self, text: str) -> None:
+        """a record of the outer run of a nested run (logged while only the outer run's log file is open)"""
+        from gallia.log import get_logger
+
+        self.say(get_logger(LOGGER_NAME), f"C15-OUTER id={self.spec.get('id', 0)} {text}", "outer")
+        self.event("outer_" + text.split(":")[1].split(",")[0].strip())
+
+    def inner_begins(self, cmd: Any) -> None:
+        self.inner_cmd = cmd
+        self.qh_base = self.queue_handlers()  # the outer run's log handler, if it has one
+        self.event("inner_entry_point_begins")
+
+    def inner_ended(self, cmd: Any) -> None:
+        observe_entry_point_end(cmd, self.out, qh_base=self.qh_base)
+        self.probe_lock("lock-after-entry-point")
+        self.event("inner_entry_point_ended")
 
     def watch_db_close(self, cmd: Any) -> None:
         """Observation at the boundary between the command and its database handler: DBHandler.disconnect() is the handler's only way
@@ -842,7 +1065,7 @@ class Injector:
         (self.out / "helper-pid").write_text(str(pid))
         self.event(f"helper_forked {how}")
 
-    def after_entry_point(self, cmd: Any) -> None:
+    def after_entry_point(self, cmd: Any, escaped: bool = False) -> None:
         """Harness housekeeping once entry_point() is over and the lock file has been probed: was the helper alive all the time (then
         stop and reap it), did the command leave its database connection open (then note it and - unless the spec says otherwise -
         stop the connection's worker thread: it is not a daemon thread and would keep the interpreter from exiting)."""
@@ -862,10 +1085,12 @@ class Injector:
                     h.kill()
                     h.join(10)
                 d["helper_reaped"] = True
-            if self.spec.get("latesig"):
-                con = getattr(getattr(cmd, "db_handler", None), "connection", None)
-                d["db_connection_left_open"] = con is not None and con._thread.is_alive()
-                if con is not None and not self.spec["latesig"].get("leave_connection"):
+            # (runs on a database file that was there before / nested runs: only after an exception has left entry_point() - the open
+            # connection is a consequence of that exception, which is what gets reported, and would only keep the process from ending)
+            for c in ([cmd] if self.spec.get("latesig") else [cmd, self.inner_cmd] if escaped else []):
+                con = getattr(getattr(c, "db_handler", None), "connection", None)
+                d["db_connection_left_open"] = d.get("db_connection_left_open", False) or (con is not None and con._thread.is_alive())
+                if con is not None and not (self.spec.get("latesig") or {}).get("leave_connection"):
                     con.stop()
                     con._thread.join(15)
                     d["db_connection_stopped_by_harness"] = not con._thread.is_alive()
@@ -916,13 +1141,13 @@ class Injector:
             self.event(f"db_cycle_error {type(e).__name__}")
             raise
 
-    def probe_lock(self, name: str) -> None:
-        if not self.spec["lock"]:
+    def probe_lock(self, name: str, path: Path | None = None) -> None:
+        if path is None and not self.spec["lock"]:
             return
         import fcntl
 
         try:
-            fd = os.open(self.paths["lock"], os.O_RDONLY)
+            fd = os.open(path if path is not None else self.paths["lock"], os.O_RDONLY)
         except OSError as e:
             (self.out / name).write_text(f"error {e!r}\n")
             return
@@ -1082,18 +1307,17 @@ def start_ecu(sock: Path, out: Path) -> None:
         os._exit(97)
 
 
-def observe_entry_point_end(cmd: Any, out: Path) -> None:
+def observe_entry_point_end(cmd: Any, out: Path, prefix: str = "", qh_base: int = 0) -> None:
     """What the command itself left behind, taken in the child the moment entry_point() returned or raised (after
     asyncio.run() is done, before the interpreter's atexit hooks run: logging.shutdown() closes every handler that is
     still open and would make a log file the command never closed look fine after the process ended)."""
-    import logging
     import shutil
 
     try:
         d: dict[str, Any] = {
             "log_file_handlers_left": len(getattr(cmd, "log_file_handlers", []) or []),
-            # setup_logging(logger_name="") puts the console handler on the root logger; on "gallia" only add_zst_log_handler() attaches one
-            "queue_handlers_on_gallia": sum(1 for h in logging.getLogger("gallia").handlers if type(h).__name__ == "QueueHandler"),
+            # (nested runs: qh_base is what was attached before this run's entry_point() began - the outer run's handler)
+            "queue_handlers_on_gallia": Injector.queue_handlers() - qh_base,
             "log_copied": False,
         }
         ad = getattr(cmd, "artifacts_dir", None)
@@ -1101,14 +1325,64 @@ def observe_entry_point_end(cmd: Any, out: Path) -> None:
             lf = Path(ad) / "log.json.zst"
             d["log_exists"] = lf.exists()
             if lf.exists():
-                shutil.copyfile(lf, out / "log-at-entry-point-end.zst")
+                shutil.copyfile(lf, out / f"{prefix}log-at-entry-point-end.zst")
                 d["log_copied"] = True
-        (out / "entry-point-end.json").write_text(json.dumps(d))
+        (out / f"{prefix}entry-point-end.json").write_text(json.dumps(d))
     except BaseException as e:  # noqa: BLE001  (observing must never change how the child ends)
         try:
-            (out / "entry-point-end.error").write_text(repr(e))
+            (out / f"{prefix}entry-point-end.error").write_text(repr(e))
         except OSError:
             pass
+
+
+def prepare_db_state(spec: dict[str, Any], rundir: Path, config: Any) -> None:
+    """Child, before the command is built. Database state "initialised": an earlier, completed run has used the database file (gallia's
+    own DBHandler: connect, run_meta row with OTHER_WRITER as script, completed, disconnect). State "empty-file" was made by the parent."""
+    if spec.get("dbstate") != "initialised":
+        return
+    import asyncio
+    from datetime import UTC
+
+    from gallia.db.handler import DBHandler
+
+    out = run_paths(rundir)["out"]
+    h = DBHandler(run_paths(rundir)["db"])
+
+    async def earlier_run() -> None:
+        await h.connect()
+        try:
+            now = datetime.now(UTC).astimezone()
+            await h.insert_run_meta(script=OTHER_WRITER, config=config, start_time=now, path=None)
+            await h.complete_run_meta(now, 0, None)
+        finally:
+            await h.disconnect()
+
+    try:
+        asyncio.run(asyncio.wait_for(earlier_run(), 20))
+        (out / "db-initialised").write_text("ok")
+    except BaseException as e:  # noqa: BLE001  (then the run simply starts with whatever is there; it does not count as "initialised")
+        (out / "db-initialise-failed").write_text(repr(e))
+        con = h.connection
+        if con is not None:
+            try:
+                con.stop()
+                con._thread.join(10)
+            except Exception:  # noqa: BLE001
+                pass
+
+
+def scale_subprocess_clock(spec: dict[str, Any], out: Path) -> None:
+    """Child, "scaled" slow hooks: the clock the stdlib's subprocess module measures timeouts with runs `scale` times faster from now on.
+    Only code that gives subprocess a timeout ever reads it; asyncio, logging and the hook script itself see the real clock."""
+    sh = spec.get("slowhook")
+    if not sh or float(sh.get("scale", 1.0)) == 1.0:
+        return
+    import subprocess as sp
+
+    real, k = time.monotonic, float(sh["scale"])
+    t0 = real()
+    sp._time = lambda: t0 + (real() - t0) * k  # type: ignore[attr-defined]
+    (out / "hook-clock-scaled").write_text(str(k))
 
 
 def cli_argv(spec: dict[str, Any], rundir: Path) -> list[str]:
@@ -1134,6 +1408,9 @@ def child_cli(spec: dict[str, Any], rundir: Path) -> None:
 
     paths = run_paths(rundir)
     inj = Injector(spec, rundir)
+    if spec.get("dbstate") == "initialised":
+        define_commands()
+        prepare_db_state(spec, rundir, C15ScriptConfig())
     sys.argv = cli_argv(spec, rundir)
     (paths["out"] / "started").write_text(json.dumps(sys.argv))
     rc: Any = None
@@ -1153,6 +1430,18 @@ def child_cli(spec: dict[str, Any], rundir: Path) -> None:
         frames = traceback.extract_tb(e.__traceback__)
         gl = [f for f in frames if "/gallia/" in f.filename]
         (paths["out"] / "escaped.json").write_text(json.dumps({"type": type(e).__name__, "text": repr(e)[:300], "func": gl[-1].name if gl else None, "hook_variant": None}))
+        if spec.get("dbstate", "absent") != "absent" and not isinstance(e, KeyboardInterrupt):
+            # the exception is what gets reported; a database connection it left open would only keep the process from ending
+            import gc
+
+            import aiosqlite
+
+            for o in gc.get_objects():
+                try:
+                    if isinstance(o, aiosqlite.Connection) and o._thread.is_alive():
+                        o.stop()
+                except Exception:  # noqa: BLE001
+                    pass
         raise
     finally:
         inj.probe_lock("lock-after-entry-point")
@@ -1199,17 +1488,33 @@ def child_main(specfile: str) -> None:
         import gallia.command.uds as guds
 
         guds.load_ecu = lambda vendor: C15ECU  # type: ignore[assignment]
-    cmd = cls(config)
+    prepare_db_state(spec, rundir, config)
+    scale_subprocess_clock(spec, paths["out"])
     inj = Injector(spec, rundir)
+    nested = bool(spec.get("rerun"))
+    if nested:
+        # the command of this spec is the inner run: gallia's Rerunner builds it from the META.json and awaits its entry_point()
+        # inside the Rerunner's own run (_Mixin.entry_point observes the inner run where child_main observes a top-level one)
+        op = outer_paths(rundir)
+        cls.injector = inj
+        now = datetime.now().astimezone().isoformat()
+        op["meta"].write_text(json.dumps({"command": f"vf.checks.c15.{cls.__name__}", "start_time": now, "end_time": now, "exit_code": 0,
+                                          "config": json.loads(config.model_dump_json())}) + "\n")
+        cmd = C15Rerunner(build_outer_config(spec, rundir))
+    else:
+        cmd = cls(config)
     cmd.injector = inj
+    pre = "outer-" if nested else ""
+    escaped_exc = False  # an exception other than the KeyboardInterrupt of a Ctrl-C has left entry_point()
     (paths["out"] / "started").write_text(config.model_dump_json())
     try:
         try:
             rc = asyncio.run(cmd.entry_point())
         finally:
-            observe_entry_point_end(cmd, paths["out"])
-        (paths["out"] / "returned").write_text(json.dumps(rc))
+            observe_entry_point_end(cmd, paths["out"], prefix=pre)
+        (paths["out"] / f"{pre}returned").write_text(json.dumps(rc))
     except BaseException as e:
+        escaped_exc = not isinstance(e, KeyboardInterrupt)
         frames = traceback.extract_tb(e.__traceback__)
         gl = [f for f in frames if "/gallia/" in f.filename]
         lines = " ".join((f.line or "") for f in frames)
@@ -1219,9 +1524,17 @@ def child_main(specfile: str) -> None:
         }))
         raise
     finally:
-        inj.probe_lock("lock-after-entry-point")
+        if nested:
+            if spec["rerun"]["lock"]:
+                inj.probe_lock("outer-lock-after-entry-point", outer_paths(rundir)["lock"])
+        else:
+            inj.probe_lock("lock-after-entry-point")
         if spec.get("forkhelper") or spec.get("latesig"):
-            inj.after_entry_point(cmd)
+            inj.after_entry_point(cmd, escaped=escaped_exc and spec.get("dbstate", "absent") != "absent")
+        elif escaped_exc and (spec.get("dbstate", "absent") != "absent" or nested):
+            inj.after_entry_point(cmd, escaped=True)
+        elif nested and inj.inner_cmd is not None and not (paths["out"] / "returned").exists() and (paths["out"] / "outer-returned").exists():
+            inj.after_entry_point(cmd, escaped=True)  # the inner run's entry_point() raised inside the outer run, which ended normally
     sys.exit(rc)
 
 
@@ -1384,11 +1697,18 @@ def execute(spec: dict[str, Any], rundir: Path, timeout: float = CHILD_TIMEOUT) 
     (rundir / "tmp").mkdir(exist_ok=True)
     paths["hook"].write_text(HOOK_SH)
     paths["spec"].write_text(json.dumps(spec))
+    if spec["db"] and spec.get("dbstate") == "empty-file":
+        # `--db "$(mktemp)"`: the file is there before the run and has nothing in it
+        paths["db"].parent.mkdir(parents=True, exist_ok=True)
+        paths["db"].touch()
+    slow = spec.get("slowhook") or {}
+    if slow.get("flavour") == "realtime":
+        timeout += float(slow["sleep"]) * sum(1 for hv in ("pre", "post") if spec[hv] == "slow")  # the hooks really take that long
     env = dict(os.environ)
     env.update({
         "C15_OUT": str(paths["out"]), "C15_LOCK": str(paths["lock"]) if spec["lock"] else "", "TMPDIR": str(rundir / "tmp"),
         "PYTHONDONTWRITEBYTECODE": "1", "VERIF_REPO": os.environ.get("VERIF_REPO", "/repo"),
-        "C15_DUMP_AFTER": str(timeout - STACK_DUMP_BEFORE_KILL),
+        "C15_DUMP_AFTER": str(timeout - STACK_DUMP_BEFORE_KILL), "C15_SLOW": str(slow.get("sleep", SLOW_SCALED_SLEEP)),
     })
     for k in ("PYTHONPATH", "GALLIA_CONFIG", "GALLIA_LOGLEVEL"):
         env.pop(k, None)
@@ -1487,12 +1807,17 @@ def execute(spec: dict[str, Any], rundir: Path, timeout: float = CHILD_TIMEOUT) 
     obs["events"] = (_read(out / "events") or "").split("\n")[:-1]
     obs["returned"] = json.loads(_read(out / "returned") or "null")
     obs["logged"] = []  # what the command handed to gallia's logger, in order: (ASCII form of the text, kind, has lone surrogates)
+    logged_all: list[list[Any]] = []  # nested runs: the same plus the outer run's own records (kind "outer"), in the order of logging
     for ln in (_read(out / "logged.jsonl") or "").splitlines():
         try:
             d = json.loads(ln)
-            obs["logged"].append([json.dumps(d["t"]), d["k"], any(0xD800 <= ord(ch) <= 0xDFFF for ch in d["t"])])
+            logged_all.append([json.dumps(d["t"]), d["k"], any(0xD800 <= ord(ch) <= 0xDFFF for ch in d["t"])])
         except (ValueError, KeyError):
             pass
+    obs["logged"] = [x for x in logged_all if x[1] != "outer"]
+    obs["hook_clock_scaled"] = (out / "hook-clock-scaled").exists()
+    obs["db_initialised"] = (out / "db-initialised").exists()
+    obs["db_initialise_failed"] = _read(out / "db-initialise-failed")
     obs["escaped"] = json.loads(_read(out / "escaped.json") or "null")
     obs["lock_at_fault"] = (_read(out / "lock-at-fault") or "").strip() or None
     obs["lock_after_entry_point"] = (_read(out / "lock-after-entry-point") or "").strip() or None
@@ -1519,6 +1844,7 @@ def execute(spec: dict[str, Any], rundir: Path, timeout: float = CHILD_TIMEOUT) 
                     d[k.decode(errors="replace")] = val.decode(errors="replace")
             obs[f"hook_{v}_env"] = {k: d[k] for k in d if k.startswith("GALLIA_")}
         obs[f"hook_{v}_lock"] = (_read(out / f"hook-{v}.lock") or "").strip() or None
+        obs[f"hook_{v}_done"] = (out / f"hook-{v}.done").exists()
     # ---- lock after exit, from a second process (this one)
     if spec["lock"]:
         if paths["lock"].exists():
@@ -1553,6 +1879,7 @@ def execute(spec: dict[str, Any], rundir: Path, timeout: float = CHILD_TIMEOUT) 
         obs["log_at_ep_end"] = analyze_log(snap, spec)
     # ---- database
     obs["run_meta"] = None
+    outer_rows_same_db: list[dict[str, Any]] = []
     if paths["db"].exists():
         try:
             con = sqlite3.connect(f"file:{paths['db']}?mode=ro", uri=True, timeout=10)
@@ -1560,8 +1887,9 @@ def execute(spec: dict[str, Any], rundir: Path, timeout: float = CHILD_TIMEOUT) 
                 cur = con.execute("SELECT id, script, config, start_time, end_time, end_timezone, exit_code, path FROM run_meta")
                 cols = [c[0] for c in cur.description]
                 allrows = [dict(zip(cols, row)) for row in cur.fetchall()]
-                obs["run_meta"] = [r for r in allrows if r["script"] != OTHER_WRITER]
-                obs["run_meta_other_writer_rows"] = len(allrows) - len(obs["run_meta"])
+                obs["run_meta"] = [r for r in allrows if r["script"] not in (OTHER_WRITER, OUTER_COMMAND)]
+                obs["run_meta_other_writer_rows"] = sum(1 for r in allrows if r["script"] == OTHER_WRITER)
+                outer_rows_same_db = [r for r in allrows if r["script"] == OUTER_COMMAND]
                 if spec.get("cli"):
                     obs["discovery_run"] = [list(r) for r in con.execute("SELECT id, protocol, meta FROM discovery_run").fetchall()]
                 if spec.get("latesig") and obs.get("latesig") is not None:
@@ -1570,6 +1898,48 @@ def execute(spec: dict[str, Any], rundir: Path, timeout: float = CHILD_TIMEOUT) 
                 con.close()
         except sqlite3.Error as e:
             obs["run_meta_error"] = repr(e)
+    # ---- nested runs: what the outer run (the Rerunner) left behind, kept apart from the inner run's observations above
+    if spec.get("rerun"):
+        r, op = spec["rerun"], outer_paths(rundir)
+        o: dict[str, Any] = {"returned": json.loads(_read(out / "outer-returned") or "null"), "logged_all": logged_all,
+                             "ep_end": json.loads(_read(out / "outer-entry-point-end.json") or "null"), "ep_end_error": _read(out / "outer-entry-point-end.error"),
+                             "lock_after_entry_point": (_read(out / "outer-lock-after-entry-point") or "").strip() or None,
+                             "meta_raw": None, "log": None, "log_at_ep_end": None, "run_meta": None, "lock_after_exit": None}
+        dirs = sorted(op["art"].glob("*/run-*")) if op["art"].exists() else []
+        o["artifact_dirs"] = [str(p) for p in dirs]
+        if len(dirs) == 1:
+            o["meta_raw"] = _read(dirs[0] / "META.json")
+            if (dirs[0] / "log.json.zst").exists():
+                o["log"] = analyze_log(dirs[0] / "log.json.zst", spec)
+        if (out / "outer-log-at-entry-point-end.zst").exists():
+            o["log_at_ep_end"] = analyze_log(out / "outer-log-at-entry-point-end.zst", spec)
+        if r["lock"]:
+            if op["lock"].exists():
+                fd = os.open(op["lock"], os.O_RDONLY)
+                try:
+                    fcntl.flock(fd, fcntl.LOCK_EX | fcntl.LOCK_NB)
+                    fcntl.flock(fd, fcntl.LOCK_UN)
+                    o["lock_after_exit"] = "free"
+                except BlockingIOError:
+                    o["lock_after_exit"] = "held"
+                finally:
+                    os.close(fd)
+            else:
+                o["lock_after_exit"] = "no-file"
+        if r["db"] == "same":
+            o["run_meta"] = outer_rows_same_db if obs["run_meta"] is not None else None
+        elif r["db"] == "own" and op["db"].exists():
+            try:
+                con = sqlite3.connect(f"file:{op['db']}?mode=ro", uri=True, timeout=10)
+                try:
+                    cur = con.execute("SELECT id, script, config, start_time, end_time, end_timezone, exit_code, path FROM run_meta")
+                    cols = [c[0] for c in cur.description]
+                    o["run_meta"] = [dict(zip(cols, row)) for row in cur.fetchall()]
+                finally:
+                    con.close()
+            except sqlite3.Error as e:
+                o["run_meta_error"] = repr(e)
+        obs["outer"] = o
     return obs
 
 
@@ -1636,7 +2006,12 @@ def judge(spec: dict[str, Any], obs: dict[str, Any], rundir: Path, reach: Any = 
             mode = spec[hv]
             cls = "failing-hook" if mode in ("fail", "failnoisy") else f"{mode}-hook"
             key = f"run_hook/{cls}/{esc['type']}/{hv}"
-            what = (f"{hv}-hook exiting non-zero makes run_hook raise {esc['type']} out of entry_point(): "
+            sh = spec.get("slowhook") or {}
+            cause = (f"{hv}-hook exiting non-zero" if mode in ("fail", "failnoisy") else
+                     f"a {hv}-hook that does not fail but takes long (it sleeps {sh.get('sleep')} s"
+                     + (f" while the clock of the subprocess module runs {sh.get('scale'):g} times faster: {float(sh.get('sleep', 0)) * float(sh.get('scale', 1)):g} s by that clock)" if obs.get("hook_clock_scaled") else " of real time)")
+                     if mode == "slow" else f"a {mode} {hv}-hook")
+            what = (f"{cause} makes run_hook raise {esc['type']} out of entry_point(): "
                     + ("the run is aborted before it starts, no META.json, log not closed" if hv == "pre" else
                        "the exit code of the run is replaced by the traceback's 1 and the lock is not released by the command"))
         else:
@@ -1768,6 +2143,18 @@ def judge(spec: dict[str, Any], obs: dict[str, Any], rundir: Path, reach: Any = 
                 v.append(("hook/env/GALLIA_META/not-json", f"GALLIA_META={env.get('GALLIA_META')!r:.200}"))
         if spec["lock"] and obs[f"hook_{hv}_lock"] == "free":
             v.append((f"lock/not-held-during-hook/{hv}", f"lock file could be locked by the {hv}-hook while the command was running"))
+        if mode == "slow":
+            # a hook that takes long is not a failing hook: it is run to its end and the run goes on as if it had been quick
+            sh = spec.get("slowhook") or {}
+            if obs.get(f"hook_{hv}_done"):
+                hit(f"slowhook.completed.{hv}")
+                hit(f"slowhook.{sh.get('flavour')}.completed")
+                if sh.get("flavour") == "scaled":
+                    hit("slowhook.clock_scaled", 1 if obs.get("hook_clock_scaled") else 0)
+            else:
+                v.append((f"hook/slow-hook-cut-short/{hv}", f"the {hv}-hook was started but not allowed to finish (it sleeps {sh.get('sleep')} s and exits 0)"))
+            if hv == "pre" and "setup_pre" not in events:
+                v.append(("hook/slow-hook-aborts-run/pre", "the pre-hook took long and the command's setup() never ran"))
         if mode in ("fail", "failnoisy"):
             hit(f"hook.failing.{hv}")
             reported = any(f"{hv}-hook" in ln and "fail" in ln for ln in obs["stderr"].splitlines())
@@ -1931,6 +2318,8 @@ def judge(spec: dict[str, Any], obs: dict[str, Any], rundir: Path, reach: Any = 
             v.append((f"run_meta/row-count/{cond}", f"run_meta rows: {None if rows is None else len(rows)} ({obs.get('run_meta_error', '')})"))
         else:
             hit("run_meta.rows_read")
+            if spec.get("dbstate") and (spec["dbstate"] != "initialised" or (obs.get("db_initialised") and obs.get("run_meta_other_writer_rows"))):
+                hit(f"dbstate.{spec['dbstate']}.run_meta_checked")  # the state the database path was in before the run
             if tdprops_hit:
                 hit("tdprops.run_meta_checked")
             if dbcycled:
@@ -1978,6 +2367,143 @@ def judge(spec: dict[str, Any], obs: dict[str, Any], rundir: Path, reach: Any = 
                 hit("lock.probed_during_run")
                 if obs[probe] == "free":
                     v.append(("lock/not-held-during-run", f"lock file could be locked by somebody else while the command was running ({probe})"))
+    return v
+
+
+def judge_outer(spec: dict[str, Any], obs: dict[str, Any], rundir: Path, reach: Any = None) -> list[tuple[str, str]]:
+    """Nested runs: the artefact oracle for the outer run (gallia's Rerunner), whose main() awaited the entry_point() of the command it
+    re-created. Its exit code is the inner run's (the Rerunner ends with sys.exit(<what the inner entry_point() returned>)); META.json, log,
+    run_meta row and lock file are its own. Its log handler was attached from before the inner command existed until after it had ended:
+    every record the harness logged in that time (the outer run's two records and all records of the inner run) belongs into its log."""
+    def hit(name: str, n: int = 1) -> None:
+        if reach is not None:
+            reach(f"rerun.{name}", n)
+
+    v: list[tuple[str, str]] = []
+    o, r = obs.get("outer"), spec["rerun"]
+    real_sigint = bool(obs["sigint_delivered"])
+    esc = obs["escaped"]
+    if o is None or not obs["started"] or (esc is not None and not (real_sigint and esc["type"] == "KeyboardInterrupt")):
+        return v  # reported by judge() as one mechanism
+    events, rc = obs["events"], obs["rc"]
+    began = "inner_entry_point_begins" in events
+    exercised = began and "outer_setup" in events and "inner_entry_point_ended" in events
+    hit("exercised" if exercised else "not_exercised")
+    if exercised:
+        hit(f"kind.{spec['kind']}")
+        hit("both_logs_open", 1 if r["art"] and spec["art"] and obs["log"] is not None and o["log"] is not None else 0)
+        hit("shared_database", 1 if r["db"] == "same" else 0)
+    eff = 130 if real_sigint else rc
+    if not real_sigint:
+        if began and obs["returned"] is None:
+            v.append(("entry_point/escaped-exception/inner-of-nested-run", f"the entry_point() of the command the Rerunner re-created raised instead of returning an exit code "
+                      f"(the Rerunner's own run ended with {o['returned']!r})"))
+        elif isinstance(obs["returned"], int) and o["returned"] != obs["returned"]:
+            v.append((f"exit/code-differs/{OUTER_COND}", f"the Rerunner's entry_point() returned {o['returned']!r}; it ends with sys.exit(n), n = {obs['returned']!r} "
+                      "being what the re-created command's entry_point() returned"))
+    # ---- META.json of the outer run
+    meta = None
+    if r["art"]:
+        if len(o["artifact_dirs"]) != 1:
+            v.append((f"meta/artifacts-dir-count/{OUTER_COND}", f"{len(o['artifact_dirs'])} run directories below the outer run's artifacts base"))
+        elif o["meta_raw"] is None:
+            v.append((f"meta/missing/{OUTER_COND}", "artifacts dir configured for the Rerunner but its META.json was not written"))
+        else:
+            try:
+                meta = json.loads(o["meta_raw"])
+                assert isinstance(meta, dict) and {"command", "start_time", "end_time", "exit_code", "config"} <= set(meta)
+            except (ValueError, AssertionError):
+                v.append(("meta/unparsable", f"META.json of the outer run: {o['meta_raw'][:200]!r}"))
+                meta = None
+    elif o["artifact_dirs"]:
+        v.append(("meta/artifacts-without-config", "no artifacts dir configured for the outer run but one was created"))
+    want_cfg = None
+    try:
+        want_cfg = build_outer_config(spec, rundir).model_dump_json()
+    except Exception:  # noqa: BLE001
+        pass
+    if meta is not None:
+        hit("outer.meta_checked")
+        if meta["exit_code"] != eff:
+            v.append((f"meta/exit-code-differs/{OUTER_COND}", f"META.json of the Rerunner's run says exit_code={meta['exit_code']!r}, the process ended with {rc}" + (" (SIGINT; must be 130)" if real_sigint else "")))
+        try:
+            if not datetime.fromisoformat(meta["start_time"]) <= datetime.fromisoformat(meta["end_time"]):
+                v.append(("meta/times-invalid/start-after-end", f"outer run: start {meta['start_time']} > end {meta['end_time']}"))
+        except (ValueError, TypeError):
+            v.append(("meta/times-invalid/not-iso", f"outer run: start={meta['start_time']!r} end={meta['end_time']!r}"))
+        try:
+            cls, cfg = recreate_config(meta["command"], meta["config"])
+            if cls.__name__ != OUTER_CLASS or cfg.model_dump_json() != want_cfg:
+                v.append(("meta/config-differs", f"config re-created from the outer run's META.json differs: {cfg.model_dump_json()[:300]} vs {str(want_cfg)[:300]}"))
+        except Exception as e:  # noqa: BLE001
+            v.append((f"meta/config-not-recreatable/{type(e).__name__}", f"outer run: CONFIG_TYPE(**META.config) fails: {e!r:.300}"))
+    # ---- log of the outer run: after the process ended, and as the Rerunner left it when its entry_point() ended
+    if r["art"] and len(o["artifact_dirs"]) == 1:
+        wanted = [t for t, _, sur in o["logged_all"] if not sur]
+        how = "raised" if o["returned"] is None else "returned"
+        for lg, when, counter in ((o["log"], "file after the process ended", "outer.log_checked"), (o["log_at_ep_end"], f"file as it is when the Rerunner's entry_point() has {how}", "outer.log_checked_at_entry_point_end")):
+            have = {k for k, _ in v}
+            found: list[tuple[str, str]] = []
+            if lg is None:
+                if counter == "outer.log_checked" or o["ep_end"] is not None:
+                    found.append((f"log/missing/{OUTER_COND}", f"the outer run's log.json.zst does not exist ({when})"))
+            else:
+                hit(counter)
+                if not lg.get("closed"):
+                    found.append((f"log/not-closed/{OUTER_COND}", f"the outer run's log.json.zst is not a complete zstd stream ({when}; {lg.get('size')} bytes on disk)"))
+                if "read_error" in lg:
+                    found.append((f"log/unreadable/{OUTER_COND}", f"PenlogReader fails on the outer run's log ({when}): {lg['read_error']}"))
+                else:
+                    if lg["records"] != lg["lines"] or lg["records"] == 0:
+                        found.append(("log/record-count", f"outer run: {lg['records']} records decoded from {lg['lines']} lines ({when})"))
+                    own = lg.get("own") or []
+                    if wanted:
+                        hit(counter.replace("log_checked", "log_sequence_checked"))
+                        missing = [t for t in wanted if t not in own]
+                        if missing:
+                            pos = wanted.index(missing[0])
+                            found.append((f"log/records-missing/{OUTER_COND}", f"{len(missing)} of the {len(wanted)} records logged while the Rerunner's log file was open (its own before the re-created "
+                                          f"command existed / after it had ended, and the inner run's in between) are not in the Rerunner's log ({when}); first missing: {missing[0][:120]} "
+                                          f"(record {pos + 1} of {len(wanted)}); the file holds {len(own)} record(s) of that logger; the inner run had "
+                                          + ("its own log file open at the same time" if spec["art"] else "no log file")))
+                        else:
+                            it = iter(own)
+                            if not all(t in it for t in wanted):
+                                found.append((f"log/records-out-of-order/{OUTER_COND}", f"the records logged during the Rerunner's run are all in its log but not in the order they were logged ({when})"))
+            v.extend(f for f in found if f[0] not in have)
+    epe = o["ep_end"]
+    if epe is not None and (epe.get("log_file_handlers_left") or epe.get("queue_handlers_on_gallia")) and f"log/not-closed/{OUTER_COND}" not in {k for k, _ in v}:
+        v.append((f"log/handler-left-attached/{OUTER_COND}", f"the Rerunner's entry_point() has ended with {epe.get('log_file_handlers_left')} log file handler(s) in log_file_handlers and "
+                  f"{epe.get('queue_handlers_on_gallia')} queue handler(s) still attached to the 'gallia' logger"))
+    # ---- run_meta row of the outer run (in the inner run's database file or in one of its own)
+    if r["db"] is not None:
+        rows = o["run_meta"]
+        if rows is None or len(rows) != 1:
+            v.append((f"run_meta/row-count/{OUTER_COND}", f"run_meta rows of the Rerunner's run: {None if rows is None else len(rows)} ({o.get('run_meta_error', obs.get('run_meta_error', ''))})"))
+        else:
+            hit("outer.run_meta_checked")
+            row = rows[0]
+            if row["end_time"] is None:
+                v.append((f"run_meta/end_time-null/{OUTER_COND}", f"run_meta.end_time of the Rerunner's run is NULL (exit_code {row['exit_code']!r}) after the process ended with {rc}"
+                          + ("; the re-created command used the same database file" if r["db"] == "same" else "")))
+            else:
+                if row["exit_code"] != eff:
+                    v.append((f"run_meta/exit-code-differs/{OUTER_COND}", f"run_meta.exit_code={row['exit_code']!r} for the Rerunner's run, the process ended with {rc}"))
+                if not row["start_time"] <= row["end_time"]:
+                    v.append(("run_meta/times-invalid", f"outer run: start {row['start_time']} > end {row['end_time']}"))
+            try:
+                _, cfg = recreate_config(row["script"], json.loads(row["config"]))
+                if cfg.model_dump_json() != want_cfg:
+                    v.append(("run_meta/config-differs", "config re-created from the outer run's run_meta row differs"))
+            except Exception as e:  # noqa: BLE001
+                v.append((f"run_meta/config-not-recreatable/{type(e).__name__}", f"outer run: {e!r:.300}"))
+    # ---- lock file of the outer run
+    if r["lock"]:
+        hit("outer.lock_probed")
+        if o["lock_after_exit"] != "free":
+            v.append((f"lock/held-after-exit/{OUTER_COND}", f"the Rerunner's lock file after the process ended: {o['lock_after_exit']}"))
+        if o["returned"] is not None and o["lock_after_entry_point"] == "held":
+            v.append((f"lock/held-after-return/{OUTER_COND}", "the Rerunner's entry_point() returned but its lock file is still locked"))
     return v
 
 
@@ -2069,6 +2595,8 @@ def judge_cli(spec: dict[str, Any], obs: dict[str, Any], rundir: Path, reach: An
             v.append((f"run_meta/row-count/{CLI_KIND}", f"run_meta rows: {None if rows is None else len(rows)} ({obs.get('run_meta_error', '')})"))
         else:
             hit("run_meta_checked")
+            if reach is not None and spec.get("dbstate") and (spec["dbstate"] != "initialised" or (obs.get("db_initialised") and obs.get("run_meta_other_writer_rows"))):
+                reach(f"dbstate.{spec['dbstate']}.run_meta_checked")
             row = rows[0]
             disc = obs.get("discovery_run") or []
             wrote = any(r[2] == row["id"] for r in disc)
@@ -2121,6 +2649,19 @@ def summarize(obs: dict[str, Any]) -> dict[str, Any]:
                                  "lock_after_entry_point", "lock_after_exit", "artifact_dirs", "run_meta", "log", "hook_pre_lock", "hook_post_lock", "contend", "run_meta_other_writer_rows",
                                  "ep_end", "ep_end_error", "log_at_ep_end", "ecu_answers", "ecu_rdbi_answers", "ecu_faulted", "latesig", "after_ep")}
     s["meta"] = (obs.get("meta_raw") or "")[:600] or None
+    for k in ("hook_pre_done", "hook_post_done", "hook_clock_scaled", "db_initialised", "db_initialise_failed"):
+        if obs.get(k):
+            s[k] = obs[k]
+    if obs.get("outer"):
+        oo = dict(obs["outer"])
+        oo["meta"] = (oo.pop("meta_raw") or "")[:600] or None
+        oo["logged_all"] = [[t[:120], k, sur] for t, k, sur in oo.get("logged_all") or []]
+        for f in ("log", "log_at_ep_end"):
+            if isinstance(oo.get(f), dict) and "own" in oo[f]:
+                oo[f] = {**oo[f], "own": [x[:120] for x in oo[f]["own"]]}
+        if oo.get("run_meta"):
+            oo["run_meta"] = [{k: (x[:200] if isinstance(x, str) else x) for k, x in r.items()} for r in oo["run_meta"]]
+        s["outer"] = oo
     s["logged"] = [[t[:120], k, sur] for t, k, sur in (obs.get("logged") or [])]
     for f in ("log", "log_at_ep_end"):
         if isinstance(s.get(f), dict) and "own" in s[f]:
@@ -2141,7 +2682,10 @@ def case_ident(spec: dict[str, Any]) -> tuple[Any, ...]:
             + (("logtext",) + tuple(sorted(spec["logtext"].items())) if spec.get("logtext") else ())
             + (("cli", spec["cli"]["target"]) if spec.get("cli") else ())
             + (("forkhelper",) + tuple(sorted(spec["forkhelper"].items())) if spec.get("forkhelper") else ())
-            + (("latesig",) + tuple(sorted(spec["latesig"].items())) if spec.get("latesig") else ()))
+            + (("latesig",) + tuple(sorted(spec["latesig"].items())) if spec.get("latesig") else ())
+            + (("rerun",) + tuple(sorted((k, str(x)) for k, x in spec["rerun"].items())) if spec.get("rerun") else ())
+            + (("slowhook",) + tuple(sorted(spec["slowhook"].items())) if spec.get("slowhook") else ())
+            + (("dbstate", spec["dbstate"]) if spec.get("dbstate", "absent") != "absent" else ()))
 
 
 def process_case(ctx: Any, spec: dict[str, Any], base: Path, lock: Any) -> dict[str, Any] | None:
@@ -2215,6 +2759,9 @@ def process_case(ctx: Any, spec: dict[str, Any], base: Path, lock: Any) -> dict[
         if obs["ecu_rdbi_answers"]:
             ctx.reach("ecu.properties_requests_answered")
         found = judge(spec, obs, rundir, ctx.reach)
+        if spec.get("rerun"):
+            seen = {k for k, _ in found}
+            found += [f for f in judge_outer(spec, obs, rundir, ctx.reach) if f[0] not in seen]
         summ = summarize(obs)
         meta_code = None
         try:
@@ -2226,7 +2773,7 @@ def process_case(ctx: Any, spec: dict[str, Any], base: Path, lock: Any) -> dict[
                    None if rm is None else (rm["end_time"] is None, rm["exit_code"]), obs["hook_pre_env"] is not None,
                    obs["hook_post_env"] is not None, tuple(sorted(k for k, _ in found))))
         ctx.reach(f"outcome.rc={obs['rc']}")
-        ctx.sample({"case": {f: spec[f] for f in FACTORS + [x for x in ("contend", "dbcycle", "logtext", "forkhelper", "latesig") if spec.get(x)]}, "rc": obs["rc"], "meta_exit_code": meta_code, "events": obs["events"],
+        ctx.sample({"case": {f: spec[f] for f in FACTORS + [x for x in ("contend", "dbcycle", "logtext", "forkhelper", "latesig", "rerun", "slowhook", "dbstate") if spec.get(x)]}, "rc": obs["rc"], "meta_exit_code": meta_code, "events": obs["events"],
                     "run_meta": None if rm is None else {"end_time_null": rm["end_time"] is None, "exit_code": rm["exit_code"]},
                     "keys": sorted(k for k, _ in found)})
         for key, what in found:
